@@ -53,6 +53,7 @@ def check(prop, tier, seed, replay=None):
     assumptions = {}
     trusted_axioms = set()
     translator_report = None
+    coqchk_report = None
 
     # 1. model side: regenerate, prove, audit
     with build.Lock("build"):
@@ -83,6 +84,14 @@ def check(prop, tier, seed, replay=None):
                             trusted_axioms.update(a)
             except build.BuildError as e:
                 broken.append(("proof", spec.module, props.coq_error_summary(e.detail)))
+        coqchk_report = None
+        if tier == "thorough" and not failed_targets and not replay:
+            try:
+                ok, coqchk_report = build.coqchk(spec.module)
+                if not ok:
+                    broken.append(("axioms", "coqchk " + spec.module, json.dumps(coqchk_report)[:1500]))
+            except build.BuildError as e:
+                broken.append(("axioms", "coqchk " + spec.module, e.detail[-1500:]))
         hits = build.forbidden_scan()
         if hits:
             broken.append(("audit", "forbidden construct", "; ".join(hits[:10])))
@@ -171,6 +180,7 @@ def check(prop, tier, seed, replay=None):
         "discharged": discharged + ctx.extra_discharged,
         "theorems": {t: (assumptions.get(t) if assumptions.get(t) is not None else "not checked") for t in obligations},
         "axioms_used": sorted(trusted_axioms),
+        "coqchk": coqchk_report if coqchk_report is not None else "thorough tier only (coqchk -o -silent on the property module and all its dependencies)",
         "evaluations": ctx.evaluations,
         "distinct_nontrivial": ctx.distinct_nontrivial(),
         "rule": spec.rule,
